@@ -89,6 +89,10 @@ fn corpus(large_n: usize) -> Vec<(String, String, &'static str)> {
         ("includeerror.html", "<{% include \"undefined.html\" %}>".into(), "error inside an include"),
         ("plain.txt", "{{ a }}{{ xs }}{{ o }}{{ one }}{{ f }}".into(), "no autoescape: Value::format writes containers piecewise"),
         ("plaincapture.txt", "{% set c %}{{ xs }}{% endset %}{{ c }}{% filter lower %}{{ o }}{% endfilter %}".into(), "no autoescape, captures"),
+        ("rxmask.html", "{{ email | regex_replace(pattern=pat, rep=\"<hidden>\") }}".into(), "tera-contrib regex_replace (per-filter regex cache behind a lock): literal replacement"),
+        ("rxswap.html", "{{ email | regex_replace(pattern=pat, rep=\"$2 at $1\") }}".into(), "tera-contrib regex_replace: the same pattern with a replacement that uses groups"),
+        ("rxmatch.html", "{{ email is matching(pat=pat) }}{{ email is matching(pat=\"^b\") }}{{ a | striptags }}|{{ a | spaceless }}|{{ email | regex_replace(pattern=\"o\", rep=\"0\") }}".into(), "tera-contrib matching (its own cache), striptags, spaceless (lazily built statics)"),
+        ("rxbad.html", "x{{ email | regex_replace(pattern=\"(\", rep=\"y\") }}".into(), "tera-contrib regex_replace with an invalid pattern: an error every time"),
         ("unicode.html", "ünï {{ b }} ✓ {{ b | upper }} {% for c in \"日本\" %}{{ c }}·{% endfor %}".into(), "multi-byte text"),
     ];
     v.push((
@@ -134,18 +138,21 @@ fn context_jsons() -> Vec<(&'static str, Json)> {
         (
             "typical",
             json!({"a": "<A&A>", "b": "'b'", "n": 3, "f": 1.5, "t": true, "xs": [1, 2, 3],
-                   "o": {"k": "v<", "n": 1}, "one": {"only": "<1>"}, "none_v": null, "name": "var"}),
+                   "o": {"k": "v<", "n": 1}, "one": {"only": "<1>"}, "none_v": null, "name": "var",
+                   "email": "bob@example", "pat": "(\\w+)@(\\w+)"}),
         ),
         (
             "edge",
             json!({"a": "", "b": "ünï ✓", "n": -1, "f": -0.0, "t": false, "xs": [],
-                   "o": {"k": ""}, "one": {"": []}, "none_v": null, "name": "nosuch"}),
+                   "o": {"k": ""}, "one": {"": []}, "none_v": null, "name": "nosuch",
+                   "email": "ünï@✓x, a@b", "pat": "(\\w+)@(\\w+)"}),
         ),
         (
             "hostile",
             json!({"a": hostile, "b": "\"&<>'/`", "n": 0, "f": 1e300, "t": true,
                    "xs": [[1, "<"], {"k": "<v>"}, "s&", 2.5, null, true],
-                   "o": {"k": ["<", 2], "n": 2.5, "<k>": "&"}, "one": {"<k>": "&"}, "none_v": null, "name": "text"}),
+                   "o": {"k": ["<", 2], "n": 2.5, "<k>": "&"}, "one": {"<k>": "&"}, "none_v": null, "name": "text",
+                   "email": "<a@b> $1 o@o", "pat": "(\\w+)@(\\w+)"}),
         ),
     ]
 }
@@ -234,8 +241,19 @@ impl<T> std::ops::Deref for Trust<T> {
     }
 }
 
+/// The filters / tests of tera-contrib that keep state between calls (regex caches behind a lock,
+/// lazily built statics). Registering them again gives an instance fresh caches.
+fn register_contrib(t: &mut Tera) {
+    t.register_filter("regex_replace", tera_contrib::regex::RegexReplace::default());
+    t.register_test("matching", tera_contrib::regex::Matching::default());
+    t.register_filter("striptags", tera_contrib::regex::striptags);
+    t.register_filter("spaceless", tera_contrib::regex::spaceless);
+}
+
 struct World {
     tera: Tera,
+    /// the same instance before anything was rendered on it
+    pristine: Tera,
     load_errors: Vec<(String, String)>,
     sources: BTreeMap<String, String>,
     purposes: BTreeMap<String, &'static str>,
@@ -246,6 +264,7 @@ struct World {
 
 fn build_world(large_n: usize) -> World {
     let mut tera = Tera::default();
+    register_contrib(&mut tera);
     let mut load_errors = vec![];
     let mut sources = BTreeMap::new();
     let mut purposes = BTreeMap::new();
@@ -288,12 +307,23 @@ fn build_world(large_n: usize) -> World {
             calls.push(Call::Component(c.to_string(), body.map(|b| b.to_string()), *style, ae));
         }
     }
-    World { tera, load_errors, sources, purposes, ctxs: contexts(), ctx_json: context_jsons(), calls }
+    let pristine = tera.clone();
+    World { tera, pristine, load_errors, sources, purposes, ctxs: contexts(), ctx_json: context_jsons(), calls }
 }
 
 impl World {
+    /// An instance nothing was rendered on: the registered templates, new filter objects.
+    fn fresh(&self) -> Tera {
+        let mut t = self.pristine.clone();
+        register_contrib(&mut t);
+        t
+    }
+
     fn string_api(&self, call: &Call, ctx: &Context) -> Out {
-        let t = &self.tera;
+        self.string_api_on(&self.tera, call, ctx)
+    }
+
+    fn string_api_on(&self, t: &Tera, call: &Call, ctx: &Context) -> Out {
         match call {
             Call::Render(n) => engine::render(t, n, ctx),
             Call::Block(n, b) => engine::render_block(t, n, b, ctx),
@@ -307,7 +337,10 @@ impl World {
 
     /// The `_to` variant into `w`. Err(String) = panic.
     fn writer_api(&self, call: &Call, ctx: &Context, w: &mut dyn Write) -> Result<tera::TeraResult<()>, String> {
-        let t = &self.tera;
+        self.writer_api_on(&self.tera, call, ctx, w)
+    }
+
+    fn writer_api_on(&self, t: &Tera, call: &Call, ctx: &Context, w: &mut dyn Write) -> Result<tera::TeraResult<()>, String> {
         match call {
             Call::Render(n) => engine::guarded(|| t.render_to(n, ctx, &mut *w)),
             Call::Block(n, b) => engine::guarded(|| t.render_block_to(n, b, ctx, &mut *w)),
@@ -676,7 +709,7 @@ fn main() {
     run.assume("first-time initialisation of the EMPTY_MAP static happens once per process (during the sequential reference run) and is not raced");
     run.assume("the DFS prunes choices that only reorder harness bookkeeping (main task spawning/joining, a finished thread exiting); the sched self-test checks that the set of interleaving orders is unchanged by the pruning");
     run.assume("std::io::Write::write_all / write_fmt semantics (retry on Interrupted, loop on short writes, WriteZero on Ok(0)) are std's and are what the engine uses for every write");
-    run.assume("user-registered filters/functions with interior mutability are outside the property; only the built-ins are exercised");
+    run.assume("user-registered filters/functions with interior mutability are outside the property; the built-ins and tera-contrib's regex_replace / matching / striptags / spaceless (which keep caches) are exercised; tera-contrib's rand and date items are impure by design and left out");
 
     let large_n = if thorough { 400 } else { 60 };
     let w = Trust(build_world(large_n));
@@ -692,7 +725,7 @@ fn main() {
     run.extra("corpus_rejected_at_load", json!(w.load_errors));
     run.extra("fault_families", json!(FAULT_FAMILIES));
 
-    // fault-free reference of every (call, context), computed on the fresh instance in every process
+    // fault-free reference of every (call, context), computed on a fresh instance per call in every process
     struct Baseline {
         out: Out,
         data: Vec<u8>,
@@ -703,10 +736,13 @@ fn main() {
     }
     let mut baseline: Vec<Baseline> = vec![];
     for call in &w.calls {
+        // every call gets an instance nothing else was rendered on: a call that leaves something
+        // behind (a cache entry, a lazily built value) cannot colour the reference of another one
+        let t = w.fresh();
         for ctx in &w.ctxs {
-            let out = w.string_api(call, ctx);
+            let out = w.string_api_on(&t, call, ctx);
             let mut rec = Recorder::default();
-            let r = w.writer_api(call, ctx, &mut rec);
+            let r = w.writer_api_on(&t, call, ctx, &mut rec);
             baseline.push(Baseline { out, data: rec.data, chunks: rec.chunks, result: show_result(&r), coarse: coarse_result(&r) });
         }
     }
@@ -925,7 +961,7 @@ fn main() {
         Family::new(
             "purity",
             ncalls,
-            &format!("all {ncalls}^2 ordered pairs of calls x {nctx} contexts interleaved on one shared instance: A, B, A, B with a writer failing at its 2nd call, A; contexts compared with clones"),
+            &format!("all {ncalls}^2 ordered pairs of calls x {nctx} contexts interleaved on one instance that has rendered nothing before: A, B, A, B with a writer failing at its 2nd call, A, each compared with its result on an instance of its own; contexts compared with clones"),
         )
         .timeout(240.0),
         |item, acc: &mut Acc| {
@@ -946,20 +982,28 @@ fn main() {
                             "B": w.case_json(b, yi),
                         })
                     };
-                    let r1 = w.string_api(a, cx);
-                    let r2 = w.string_api(b, cy);
-                    let r3 = w.string_api(a, cx);
+                    // a fresh instance per sequence: A is the FIRST thing it renders, so whatever A
+                    // leaves behind (in the engine or in a registered tera-contrib filter) meets B
+                    let t = w.fresh();
+                    let r1 = w.string_api_on(&t, a, cx);
+                    let r2 = w.string_api_on(&t, b, cy);
+                    let r3 = w.string_api_on(&t, a, cx);
                     let mut fw = Faulty::new(Plan::FailAtCall { k: 2, kind: io::ErrorKind::Other, sticky: true });
-                    let _ = w.writer_api(b, cy, &mut fw);
-                    let r5 = w.string_api(a, cx);
+                    let _ = w.writer_api_on(&t, b, cy, &mut fw);
+                    let r5 = w.string_api_on(&t, a, cx);
                     for (step, got, want) in [(1, &r1, want_a), (2, &r2, want_b), (3, &r3, want_a), (5, &r5, want_a)] {
                         if !same_out(got, want) {
                             acc.violation(
                                 format!("impure:{}", if step == 2 { b.api() } else { a.api() }),
-                                format!("step {step} of the sequence gave {} but the first render on the fresh instance gave {}", got.show(), want.show()),
+                                format!("step {step} of the sequence gave {} but the same call alone on a fresh instance gave {}", got.show(), want.show()),
                                 case,
                             );
                         }
+                    }
+                    let mut names: Vec<String> = t.get_template_names().map(|s| s.to_string()).collect();
+                    names.sort();
+                    if names != names_before {
+                        acc.violation("instance-modified", "the set of template names changed while rendering", || json!({"before": names_before, "after": names}));
                     }
                     if *cx != kx || *cy != ky {
                         acc.violation("context-modified", "a Context differs from the clone taken before rendering", case);
@@ -1002,7 +1046,7 @@ fn main() {
             "threads-dfs",
             nh + 1,
             &format!(
-                "{nh} harnesses (19 groups of 2 or 3 renders on one Arc<Tera> x yield kinds {{escape window + writes, all}} x windows), every schedule of each executed by shuttle's DFS; \
+                "{nh} harnesses (20 groups of 2 or 3 renders on one Arc<Tera> x yield kinds {{escape window + writes, all}} x windows), every schedule of each executed by shuttle's DFS; \
                  window of {} yields per thread (2 threads) / {} (3 threads){}",
                 if thorough { "7 and 10" } else { "7" },
                 if thorough { "3 and 4" } else { "3" },
